@@ -723,6 +723,7 @@ struct HistOpts {
     bool twice = true;       // occasionally update twice in a row
     bool hash_faults_only = false;
     double p_check = 0.8;
+    double p_recycle = 0.0; // a loaded method destroyed and re-made in place
 };
 
 // builds modules for policy pi over the current world
@@ -875,6 +876,21 @@ void history(
                         g.idfam, (int)g.p.w.ids[rec.cls].size(), g.used_ids);
                     g.p.events.push_back(e);
                 }
+            }
+        }
+        if (o.p_recycle > 0 && g.r.chance(o.p_recycle)) {
+            std::vector<int> ms;
+            for (auto& mm : mods)
+                if (mm.loaded)
+                    for (int ri : mm.recs)
+                        if (g.p.recs[ri].kind == RK_METHOD)
+                            ms.push_back(ri);
+            if (!ms.empty()) {
+                Event e;
+                e.op = OP_RECYCLE;
+                e.recs = {ms[g.r.below(ms.size())]};
+                g.p.events.push_back(e);
+                dirty = true;
             }
         }
         if (g.r.chance(0.55) || s == steps - 1) {
@@ -1689,6 +1705,7 @@ Plan gen_C07(std::uint64_t seed, int tier) {
                 "sdbg", "srel", "dfr", "dfv"};
     h.faults = r.chance(0.4);
     h.relocate = r.chance(0.4);
+    h.p_recycle = r.chance(0.25) ? 0.12 : 0.0;
     h.min_steps = 3;
     h.max_steps = 14;
     h.b.max_alias = r.chance(0.2) ? 2 : 1;
@@ -1835,6 +1852,7 @@ Plan gen_C18(std::uint64_t seed, int tier) {
     h.max_steps = 30;
     h.p_check = 0.2;
     h.twice = false;
+    h.p_recycle = r.chance(0.4) ? 0.15 : 0.0;
     return gen_history("C18", seed, tier, h, "");
 }
 
